@@ -8,7 +8,7 @@
    as the code is.  keccak and ECDSA are not modelled: everything is stated on pre-images and
    `recover` is a Section variable.  No proofs in this file. *)
 From Coq Require Import ZArith List Bool String Ascii.
-From FxV Require Import model.M_Abi model.M_CkDesc.
+From FxV Require Import model.M_Abi model.M_CkDesc gen.Gen_Checkpoint.
 Import ListNotations.
 Open Scope Z_scope.
 
@@ -56,37 +56,63 @@ Definition au (l : list Z) : targ := (TArr SUint256, VA l).
 Definition aa (l : list Z) : targ := (TArr SAddress, VA l).
 Definition bb (l : list Z) : targ := (TBytes, VB l).
 
-(* cast = true : what the Go code passes to Pack (uint64 fields through big.NewInt(int64(.)))
-   cast = false: what the contract abi.encode()s when it is handed the object's values *)
-Definition ck_args (cast : bool) (gid : list Z) (o : obj) : list targ :=
+(* Which uint64 fields go through big.NewInt(int64(.)) is read off the generated tables (so the
+   model follows the tree: today every one of the seven does, in both the eth-like and the tron
+   functions).  A row `GField CI64 p` / `GMap CI64 coll p` is such a cast. *)
+Record casts := {
+  k_set_nonce : bool; k_set_power : bool;
+  k_b_nonce : bool; k_b_timeout : bool;
+  k_c_nonce : bool; k_c_timeout : bool; k_c_evn : bool
+}.
+Definition all_casts (b : bool) : casts :=
+  {| k_set_nonce := b; k_set_power := b; k_b_nonce := b; k_b_timeout := b; k_c_nonce := b; k_c_timeout := b; k_c_evn := b |}.
+Definition nocast : casts := all_casts false.
+
+Definition row_casts (name : string) (g : garg) : bool :=
+  match fst g with
+  | GField CI64 p => String.eqb p name
+  | GMap CI64 c p => String.eqb (c ++ "." ++ p) name
+  | _ => false
+  end.
+Definition casts_of_table (t : ckind -> list garg) : casts :=
+  let c k n := existsb (row_casts n) (t k) in
+  {| k_set_nonce := c KOracleSet "Nonce"; k_set_power := c KOracleSet "Members.Power";
+     k_b_nonce := c KBatch "BatchNonce"; k_b_timeout := c KBatch "BatchTimeout";
+     k_c_nonce := c KCall "Nonce"; k_c_timeout := c KCall "Timeout"; k_c_evn := c KCall "EventNonce" |}%string.
+Definition go_casts (tron : bool) : casts := casts_of_table (if tron then tron_table else go_table).
+
+(* cs = go_casts tron: what the Go code passes to Pack / GetPaddedParam
+   cs = nocast       : what the contract abi.encode()s when it is handed the object's values *)
+Definition ck_args (cs : casts) (gid : list Z) (o : obj) : list targ :=
   match o with
   | OSet s =>
       [ w32 (b32_of_bytes gid); w32 (tag_of KOracleSet);
-        wu (u64v cast (os_nonce s));
+        wu (u64v (k_set_nonce cs) (os_nonce s));
         aa (map fst (os_members s));
-        au (map (fun m => u64v cast (snd m)) (os_members s)) ]
+        au (map (fun m => u64v (k_set_power cs) (snd m)) (os_members s)) ]
   | OBatch b =>
       [ w32 (b32_of_bytes gid); w32 (tag_of KBatch);
         au (map tx_amount (b_txs b)); aa (map tx_dest (b_txs b)); au (map tx_fee (b_txs b));
-        wu (u64v cast (b_nonce b)); wa (b_token b); wu (u64v cast (b_timeout b)); wa (b_feerecv b) ]
+        wu (u64v (k_b_nonce cs) (b_nonce b)); wa (b_token b); wu (u64v (k_b_timeout cs) (b_timeout b)); wa (b_feerecv b) ]
   | OCall c =>
       [ w32 (b32_of_bytes gid); w32 (tag_of KCall);
         wa (c_sender c); wa (c_refund c);
         aa (map fst (c_tokens c)); au (map snd (c_tokens c));
         wa (c_to c); bb (c_data c); bb (c_memo c);
-        wu (u64v cast (c_nonce c)); wu (u64v cast (c_timeout c)); wu (u64v cast (c_event_nonce c)) ]
+        wu (u64v (k_c_nonce cs) (c_nonce c)); wu (u64v (k_c_timeout cs) (c_timeout c));
+        wu (u64v (k_c_evn cs) (c_event_nonce c)) ]
   end.
 
-Definition go_checkpoint_args := ck_args true.
-Definition sol_checkpoint_args := ck_args false.
+Definition go_checkpoint_args (tron : bool) := ck_args (go_casts tron).
+Definition sol_checkpoint_args := ck_args nocast.
 
-(* the bytes that are hashed: Pack(...)[4:] on the Go side, abi.encode(...) in the contract *)
-Definition go_preimage (gid : list Z) (o : obj) : list Z := encode (go_checkpoint_args gid o).
+(* the bytes that are hashed: Pack(...)[4:] / GetPaddedParam(...) on the Go side, abi.encode(...) in the contract *)
+Definition go_preimage (tron : bool) (gid : list Z) (o : obj) : list Z := encode (go_checkpoint_args tron gid o).
 Definition sol_preimage (gid : list Z) (o : obj) : list Z := encode (sol_checkpoint_args gid o).
 
 (* GetCheckpoint fails when the gravity id does not fit bytes32 (StrToByte32) *)
-Definition go_checkpoint (gid : list Z) (o : obj) : option (list Z) :=
-  if zlen gid <=? 32 then Some (go_preimage gid o) else None.
+Definition go_checkpoint (tron : bool) (gid : list Z) (o : obj) : option (list Z) :=
+  if zlen gid <=? 32 then Some (go_preimage tron gid o) else None.
 
 (* ---------- well-formed objects ---------- *)
 
@@ -111,7 +137,17 @@ Definition wf_obj (o : obj) : Prop :=
 
 Definition wf_gid (gid : list Z) : Prop := Forall is_byte gid /\ zlen gid <= 32.
 
-(* every uint64 field that goes through int64(.) is below 2^63 *)
+(* every uint64 field that goes through int64(.) under cs is below 2^63 *)
+Definition u64_small_cs (cs : casts) (o : obj) : Prop :=
+  match o with
+  | OSet s => ((k_set_nonce cs = true) -> (os_nonce s < two63)) /\
+              ((k_set_power cs = true) -> Forall (fun m => snd m < two63) (os_members s))
+  | OBatch b => ((k_b_nonce cs = true) -> (b_nonce b < two63)) /\ ((k_b_timeout cs = true) -> (b_timeout b < two63))
+  | OCall c => ((k_c_nonce cs = true) -> (c_nonce c < two63)) /\ ((k_c_timeout cs = true) -> (c_timeout c < two63)) /\
+               ((k_c_evn cs = true) -> (c_event_nonce c < two63))
+  end.
+
+(* every uint64 field of the checkpoint is below 2^63 *)
 Definition u64_small (o : obj) : Prop :=
   match o with
   | OSet s => os_nonce s < two63 /\ Forall (fun m => snd m < two63) (os_members s)
@@ -341,7 +377,7 @@ Section Confirm.
     match assoc okey_eqb (msg_okey m) (st_objs st) with
     | None => Rejected ENoObject
     | Some o =>
-    match go_checkpoint (st_gid st) o with
+    match go_checkpoint (st_tron st) (st_gid st) o with
     | None => Rejected ECheckpoint
     | Some pre =>
     match m_sig m with
@@ -405,7 +441,7 @@ Section Confirm.
   Definition accept_rule (st : cstate) (m : cmsg) (k : ckey) : Prop :=
     exists o pre sig orc,
       assoc okey_eqb (msg_okey m) (st_objs st) = Some o /\
-      go_checkpoint (st_gid st) o = Some pre /\
+      go_checkpoint (st_tron st) (st_gid st) o = Some pre /\
       m_sig m = Some sig /\
       assoc Z.eqb (m_external m) (st_ext_index st) = Some (snd k) /\
       assoc Z.eqb (snd k) (st_oracles st) = Some orc /\
